@@ -20,7 +20,9 @@ func init() {
 // two conflicting accesses of repository code that no synchronisation orders.
 func VH_c17_races() { vhC17(true) }
 
-func VH_c17_pairs() { vhC17(false) }
+// (since round 3 the completion harness runs with race detection as well: its pre-emption bound 1
+// explores executions in which an unprotected access is not accidentally ordered by an unrelated lock)
+func VH_c17_pairs() { vhC17(true) }
 
 type vhC17Handler struct{ n int }
 
@@ -32,6 +34,7 @@ var vhC17Ops = []string{
 	"request-remote-data", "approval-verdict", "remove-connection", "event-subscribe-unsubscribe", "subscribe-to-remote",
 	"get-or-add-feature", "add-function-type", "use-case-change-other-entity", "inbound-reply", "bind-to-remote",
 	"read-local-and-remote-data", "inbound-subscription-list-read", "client-side-bookkeeping-queries",
+	"add-response-callback", "inbound-discovery-update-of-an-entity", "remote-tree-queries", "inbound-unbind-with-stale-device",
 }
 
 // C17 (the half a scheduler can decide): every pair of operations of the public API / the receive
@@ -75,14 +78,42 @@ func vhC17(race bool) {
 	verifrt.WaitIdle()
 	verifrt.Assume(len(pending) == 1)
 	first := pending[0]
+	// the local client has one unanswered request out to A's server feature, with a response callback waiting
+	var ref0 model.MsgCounterType = 77
+	if c0, _ := w.F3.RequestRemoteData(fn, nil, nil, w.rA.FeatureByAddress(vhAddr("A", []uint{1}, 2))); c0 != nil {
+		ref0 = *c0
+	}
+	_ = w.F3.AddResponseCallback(ref0, func(api.ResponseMessage) {})
 	extra := NewEntityLocal(w.L, model.EntityTypeTypeCEM, NewAddressEntityType([]uint{5}), 0)
 	extra.GetOrAddFeature(model.FeatureTypeTypeLoadControl, model.RoleTypeServer)
 
+	// The datagrams of ONE connection are handled one after the other (a connection has one reader), so two
+	// inbound operations run concurrently only on different connections. Some inbound operations make sense
+	// for peer A only (the bound writer, the announced server feature, the requested peer): the other inbound
+	// operation of the pair then arrives on B's connection; a pair of two A-only inbound operations is not a
+	// schedule the stack can see and is skipped.
+	onlyA := func(op int) bool {
+		switch vhC17Ops[op] {
+		case "inbound-write", "inbound-notify", "inbound-entity-removed", "inbound-reply", "inbound-discovery-update-of-an-entity", "inbound-unbind-with-stale-device":
+			return true
+		}
+		return false
+	}
+	inbound := func(op int) bool { return len(vhC17Ops[op]) > 8 && vhC17Ops[op][:8] == "inbound-" }
+	if onlyA(pc[0]) && onlyA(pc[1]) {
+		verifrt.Reach("same-connection-pair-skipped")
+		return
+	}
+	peerOf := [2]int{0, 1} // operations of slot 1 use peer B where a peer is involved, so that two connections are active
+	if onlyA(pc[1]) {
+		peerOf = [2]int{1, 0}
+	}
+	_ = inbound
 	// every datagram is prepared up front (the counter of the harness world is not shared between threads)
 	mk := func(op, slot int) func() {
-		p := slot // operations of slot 1 use peer B where a peer is involved, so that two connections are active
-		if op == 1 || op == 5 || op == 6 {
-			p = 0 // (the bound writer / the announced server feature is A's)
+		p := peerOf[slot]
+		if onlyA(op) {
+			p = 0
 		}
 		r, _, dev := w.peer(p)
 		nm := vhAddr(dev, []uint{0}, 0)
@@ -149,6 +180,43 @@ func vhC17(race bool) {
 		case "subscribe-to-remote":
 			rf := w.rA.FeatureByAddress(vhAddr("A", []uint{1}, 2))
 			return func() { _, _ = w.F3.SubscribeToRemote(rf.Address()) }
+		case "add-response-callback":
+			cb := func(api.ResponseMessage) {}
+			return func() { _ = w.F3.AddResponseCallback(ref0+model.MsgCounterType(100+slot), cb) }
+		case "inbound-discovery-update-of-an-entity":
+			// the peer announces its entity [1] once more (partial "added" notice): features are rebuilt
+			ei := vhEntInfo("A", []uint{1})
+			st := model.NetworkManagementStateChangeTypeAdded
+			ei.Description.LastStateChange = &st
+			dd := &model.NodeManagementDetailedDiscoveryDataType{
+				DeviceInformation: &model.NodeManagementDetailedDiscoveryDeviceInformationType{Description: &model.NetworkManagementDeviceDescriptionDataType{DeviceAddress: &model.DeviceAddressType{Device: util.Ptr(model.AddressDeviceType("A"))}}},
+				EntityInformation: []model.NodeManagementDetailedDiscoveryEntityInformationType{ei},
+				FeatureInformation: []model.NodeManagementDetailedDiscoveryFeatureInformationType{
+					vhFeatInfo("A", []uint{1}, 1, model.FeatureTypeTypeLoadControl, model.RoleTypeClient),
+					vhFeatInfo("A", []uint{1}, 2, model.FeatureTypeTypeLoadControl, model.RoleTypeServer, model.FunctionTypeLoadControlLimitListData)}}
+			cmd := model.CmdType{Function: util.Ptr(model.FunctionTypeNodeManagementDetailedDiscoveryData), Filter: []model.FilterType{*model.NewFilterTypePartial()}, NodeManagementDetailedDiscoveryData: dd}
+			d := model.DatagramType{Header: w.hdr(vhAddr("A", []uint{0}, 0), nmL, model.CmdClassifierTypeNotify, false), Payload: model.PayloadType{Cmd: []model.CmdType{cmd}}}
+			return func() { vhDeliver(r, d) }
+		case "remote-tree-queries":
+			ent := w.rA.Entity(NewAddressEntityType([]uint{1}))
+			feats := ent.Features() // a list handed out earlier, walked while updates may arrive
+			return func() {
+				n := 0
+				for _, f := range feats {
+					if f != nil && f.Role() == model.RoleTypeServer {
+						n++
+					}
+				}
+				_ = w.rA.UseCases()
+				_ = w.rA.FeatureByEntityTypeAndRole(ent, model.FeatureTypeTypeLoadControl, model.RoleTypeServer)
+				_ = ent.Features()
+				_ = w.rA.Entities()
+			}
+		case "inbound-unbind-with-stale-device":
+			// a binding delete call naming the bound client feature with an outdated device part
+			req := &model.NodeManagementBindingDeleteCallType{BindingDelete: &model.BindingManagementDeleteCallType{ClientAddress: vhAddr("A-old", []uint{1}, 1), ServerAddress: w.F1.Address()}}
+			d := model.DatagramType{Header: w.hdr(nm, nmL, model.CmdClassifierTypeCall, true), Payload: model.PayloadType{Cmd: []model.CmdType{{NodeManagementBindingDeleteCall: req}}}}
+			return func() { vhDeliver(r, d) }
 		case "get-or-add-feature":
 			return func() { w.E1.GetOrAddFeature(model.FeatureTypeTypeSetpoint, model.RoleTypeServer) }
 		case "add-function-type":
@@ -160,7 +228,7 @@ func vhC17(race bool) {
 			}
 		case "inbound-reply":
 			h := w.hdr(vhAddr("A", []uint{1}, 2), w.F3.Address(), model.CmdClassifierTypeReply, false)
-			h.MsgCounterReference = util.Ptr(model.MsgCounterType(77))
+			h.MsgCounterReference = util.Ptr(ref0) // answers the outstanding request
 			d := model.DatagramType{Header: h, Payload: model.PayloadType{Cmd: []model.CmdType{{LoadControlLimitListData: vhLimitList(4, slot == 0)}}}}
 			return func() { vhDeliver(r, d) }
 		case "bind-to-remote":
